@@ -326,6 +326,8 @@ class DataFile:
 
     try:
       self.tti_count = int(self.gsi.TNB)
+      if self.tti_count <= 0:
+        raise ValueError
       LOGGER.debug("GSI TNB: %s", self.gsi.TNB)
     except ValueError:
       LOGGER.error("Invalid TNB field value: %s", self.gsi.TNB)
@@ -367,6 +369,8 @@ class DataFile:
     elif isinstance(max_row_count, str) and max_row_count == "MNR":
       try:
         self.max_row_count = int(self.gsi.MNR)
+        if self.max_row_count <= 0:
+          raise ValueError
         LOGGER.debug("GSI MNR: %s", self.gsi.MNR)
       except ValueError:
         LOGGER.error("Invalid MNR value: %s", self.gsi.MNR)
